@@ -170,6 +170,26 @@ theorem C13_single_piece_endgame (p q : Position) (hwf : Spec.wf (Chess.absPos p
   · have h : pcv p.board = sandbox s [0,0,0,1,0,1,0,0,0,0] [1,0,0,0,0,0,0,0,1,0] := by simpa [egApplies] using hyes
     exact (v3 (pcv_decode p.board hcnt _ _ _ _ _ _ _ _ _ _ (by decide) s hs h).2.1).2
 
+/-- **C13 on two more endgame classes** (KNNKP and KmmKm — the evaluators that read a *pair* of like pieces, whose order in the bit scan
+    may swap under the mirror: the sum over the two knights is commutative, "the two bishops stand on different colours" is symmetric).
+    Same hypotheses as `C13_simple_endgame`. -/
+theorem C13_pair_endgame (p q : Position) (hwf : Spec.wf (Chess.absPos p) = true) (hq : q.board = mirrorBoard p.board)
+    (hside : q.side = 1 - p.side) (hcast : q.castling = mirrorRights p.castling)
+    (pre post : List EG) (e : EG) (hord : egOrder = pre ++ e :: post) (he : e = .KNNKP ∨ e = .KmmKm) (s : Nat) (hs : s ≤ 1)
+    (hpre : ∀ e0, e0 ∈ pre → egApplies e0 (BBs.of p) p.board 0 = false ∧ egApplies e0 (BBs.of p) p.board 1 = false)
+    (hyes : egApplies e (BBs.of p) p.board s = true) (hno : egApplies e (BBs.of p) p.board (1 - s) = false) :
+    evalPure q = evalPure p := by
+  obtain ⟨hbo, hs1, hkings, hcodes, hcnt⟩ := wf_board_hyps _ hwf
+  have m : MirrorPos p q := ⟨hq, hbo.len, hcodes⟩
+  obtain ⟨ks, hks, _⟩ := hkings s hs
+  obtain ⟨kw, hkw, _⟩ := hkings (1 - s) (by omega)
+  apply C13_class_of_value p q hwf hq hside hcast pre post e hord s hs hpre hyes hno
+  rcases he with rfl | rfl
+  · have h : pcv p.board = sandbox s [0,2,0,0,0,1,0,0,0,0] [1,0,0,0,0,0,2,0,0,0] := by simpa [egApplies] using hyes
+    have hd := pcv_decode p.board hcnt _ _ _ _ _ _ _ _ _ _ (by decide) s hs h
+    exact eg_value_knnkp m s p.side hs ks kw hks hkw hd.2.1 hd.1.2.1
+  · exact eg_value_kmmkm m s p.side hs
+
 /-- non-vacuity: a middlegame-like position (kings, a white knight and pawn, a black rook and pawn) is well-formed and no specialised
     endgame claims it or its mirror -/
 def c13gBoard : List Nat := (((((List.replicate 64 0).set 4 6).set 60 12).set 18 2).set 45 10).set 52 7 |>.set 12 1
